@@ -44,6 +44,9 @@ func (g G) drawHost(label string, c *IDPCfg, i int, m *MsgSpec) {
 		return
 	}
 	h := fmt.Sprintf("%s.idp.example", hostMarker(i))
+	if g.chance(label+".puny", 12) {
+		h = "xn--" + h // an internationalised (punycode) host name: legal, and it contains "--"
+	}
 	switch c.IssuerKind {
 	case "host":
 		m.Host = h
@@ -62,6 +65,9 @@ func (g G) drawHost(label string, c *IDPCfg, i int, m *MsgSpec) {
 		if g.chance(label+".hdr", 60) {
 			m.Host = "internal.lb"
 			m.XFHeader = "host=" + h
+			if len(c.Headers) > 1 {
+				m.XFWhich = g.weighted(label+".hdrw", 50, 20, 30)
+			}
 		} else {
 			m.Host = h
 		}
@@ -156,6 +162,7 @@ func (g G) planMix(prop string, o *mixOpts) *Plan {
 		}
 		if m != nil {
 			m.Replica = g.intn(lab+".rep", 3)
+			m.TLS = g.chance(lab+".tls", 35)
 			if o.hostVariety {
 				g.drawHost(lab+".host", &p.World.IDP, g.intn(lab+".hosti", 3), m)
 			}
